@@ -108,9 +108,69 @@ def _vec_sorted_later(facts, b, t, over_keys, name=None):
             if ls in ('sort', 'sort_unstable'):
                 return True
             if ls.endswith('by_key') or ls.endswith('cached_key'):
-                return _key_covering(facts, sym(b, u.args[1]), over_keys)
+                # a key that does not cover the entry key is the in-place form of `.sorted_by_key(non-key)`
+                return _key_covering(facts, sym(b, u.args[1]), over_keys) or 'by-non-key'
             return _cmp_total(facts, sym(b, u.args[1]))
     return None
+
+
+def _loop_sinks(b, loop, t):
+    """calls inside `loop` that append to an ordered sink (so the order in which the loop visits its elements is observable)"""
+    sens = []
+    for u in b.terms('call'):
+        if u.bb not in loop.blocks or u is t:
+            continue
+        un = u.callee_res() or ''
+        if re.search(r'Vec::push$|Vec::extend|String::push|String::push_str$|Write::write|write_fmt$|VecDeque::push|Vec::insert$', un):
+            # a push into a per-key bucket (`map.entry(k).or_default().push(v)`) is ordered by the outer
+            # iteration, not by the hash order
+            rt = sym(b, u.args[0]) if u.args else ()
+            keyed = any(isinstance(x, tuple) and x and x[0] == 'call' and
+                        re.search(r'Entry.*::(or_default|or_insert|or_insert_with)$|HashMap::get_mut$|BTreeMap::get_mut$', x[1])
+                        for x in walk(rt))
+            if not keyed:
+                sens.append(u)
+    return sens
+
+
+def _vec_only_drives_set_updates(b, t):
+    """collect() into a named Vec whose only use is a `for` loop that updates maps / sets / accumulators (`for k in &dropped {
+    map.remove(k); }`): the order of the Vec is not observable. True / False"""
+    if t.dest is None or t.dest.proj:
+        return False
+    l = t.dest.local
+    if not b.var_name(l):
+        return False
+    loops_ok = 0
+    for u in b.terms('call'):
+        if u is t or u.bb not in b.reachable:
+            continue
+        # the Vec shows up as its name or, when the symbolizer sees through the single definition, as the collect call of this site
+        hit = [a for a in u.args if any(isinstance(x, tuple) and x and ((x[0] == 'var' and len(x) > 2 and x[2] == l) or
+                                                                         (x[0] == 'call' and len(x) > 3 and x[3] == t.bb and x[1] == t.callee_res()))
+                                        for y in (sym(b, a), init_value(b, sym(b, a))) for x in walk(y))]
+        if not hit:
+            continue
+        n = last_seg(u.callee_res() or '')
+        if n in ('len', 'is_empty', 'deref', 'iter', 'into_iter', 'as_slice'):
+            continue
+        if re.search(r'(HashMap|HashSet|BTreeMap|BTreeSet)::(remove|insert|contains|contains_key|get|get_mut|entry)$', u.callee_res() or '') and \
+                cfg.innermost_loop(b, u.bb) is not None:
+            continue     # an element handed to a map / set operation inside the loop (checked with the loop below)
+        if n == 'next':
+            lp = cfg.innermost_loop(b, u.bb)
+            if lp is None or _loop_sinks(b, lp, u):
+                return False
+            # inside the loop the element may only be handed to map / set operations
+            for w in b.terms('call'):
+                if w.bb in lp.blocks and w is not u:
+                    wn = w.callee_res() or ''
+                    if not re.search(r'(HashMap|HashSet|BTreeMap|BTreeSet)::(remove|insert|contains|contains_key|get|get_mut|entry)$|::next$|::deref$|::clone$|mem::drop$|drop_in_place', wn):
+                        return False
+            loops_ok += 1
+            continue
+        return False
+    return loops_ok >= 1
 
 
 def scan(facts, bodies):
@@ -160,8 +220,13 @@ def scan(facts, bodies):
                     add('insensitive', 'collected into %s' % dty.split('<')[0])
                 else:
                     later = _vec_sorted_later(facts, b, t, over_keys)
-                    if later:
+                    if later == 'by-non-key':
+                        findings.append(Finding(b, t, 'SENSITIVE', 'collected into a Vec that is then stably sorted by something that does not cover the entry '
+                                                'key: entries with equal sort keys keep their hash order', src_show, 'sorted_by_key'))
+                    elif later:
                         add('sanitized', 'collected into a Vec that is sorted by the entry key before use')
+                    elif _vec_only_drives_set_updates(b, t):
+                        add('insensitive', 'collected into a Vec that only drives a loop of map / set updates')
                     else:
                         add('SENSITIVE', 'collected into the ordered container %s' % dty[:60])
                 continue
@@ -184,7 +249,7 @@ def scan(facts, bodies):
                 else:
                     rv = core(sym(b, t.args[0]))
                     later = _vec_sorted_later(facts, b, t, over_keys, rv[1] if rv[0] == 'var' and len(rv) > 2 else '') if rv[0] == 'var' else None
-                    if later:
+                    if later and later != 'by-non-key':
                         add('sanitized', 'extends a Vec that is sorted by the entry key before use')
                     else:
                         add('SENSITIVE', 'extends the ordered container %s in hash order' % rty[:60])
@@ -194,20 +259,7 @@ def scan(facts, bodies):
                 if loop is None:
                     add('SENSITIVE', 'takes the first element in hash order')
                     continue
-                sens = []
-                for u in b.terms('call'):
-                    if u.bb not in loop.blocks or u is t:
-                        continue
-                    un = u.callee_res() or ''
-                    if re.search(r'Vec::push$|Vec::extend|String::push|String::push_str$|Write::write|write_fmt$|VecDeque::push|Vec::insert$', un):
-                        # a push into a per-key bucket (`map.entry(k).or_default().push(v)`) is ordered by the outer
-                        # iteration, not by the hash order
-                        rt = sym(b, u.args[0]) if u.args else ()
-                        keyed = any(isinstance(x, tuple) and x and x[0] == 'call' and
-                                    re.search(r'Entry.*::(or_default|or_insert|or_insert_with)$|HashMap::get_mut$|BTreeMap::get_mut$', x[1])
-                                    for x in walk(rt))
-                        if not keyed:
-                            sens.append(u)
+                sens = _loop_sinks(b, loop, t)
                 if sens:
                     add('SENSITIVE', 'for-loop over hash order appends to an ordered sink (`%s`, line %d)' % (
                         last_seg(sens[0].callee_res()), sens[0].span['line']))
